@@ -381,3 +381,16 @@ except ImportError:
 
 def replay_file(doc):
     return {"error": "re-run ./check C16 to regenerate and replay this obligation", "violates": None, "stored": doc.get("inputs")}
+
+
+def replay_known(entry):
+    if entry.get("replay") == "explicit-generated-id":
+        fs = []
+        for i, (s, e) in enumerate([(1, 5), (3, 8), (20, 22)]):
+            f = F.Feature(seqid="c1", source="s1", featuretype="exon", start=s, end=e, strand="+", attributes={"ID": ["exon_%d" % (i + 1)]})
+            f.id = "exon_%d" % (i + 1)
+            fs.append(f)
+        db = native_db(fs)
+        out = [o for o in db.merge(db.all_features(order_by="start")) if o.children]
+        return bool(out) and out[0].id in ("exon_1", "exon_2", "exon_3")
+    return None
